@@ -123,8 +123,10 @@ def read_view(ro):
         with warnings.catch_warnings():
             warnings.filterwarnings('error', category=DeprecationWarning)     # see impl.add
             return {'view': _read_all(ro)}
-    except Unrepresentable:
-        raise
+    except Unrepresentable as e:
+        # a value that is negative or not a whole number of microseconds: inside the domain (decimal durations, parseable
+        # times) no accessor may return one - judged like any other wrong observation; outside it nothing is judged
+        return {'crash': 'unrepresentable value ' + str(e)[:60]}
     except Exception as e:  # noqa: BLE001
         return {'crash': impl.err_name(e).replace('crash:', '')}
 
@@ -501,6 +503,8 @@ def evaluate(pid, tier, seed):
                     oc.samples.append({'label': lbl, 'ro': rec['ro_text'][:1500], 'view': pi})
     if pid == 'C17':
         spaces_check(oc)
+    if pid == 'C16':
+        numbers_check(oc, seed)
     oc.rule = {
         'C15': 'running orders with every subset of the optional timing fields per story (enumerated for one story, sampled for 2-5), paragraph/item interleavings, and every state of live random histories; non-trivial = at least one story; distinct by tree hash',
         'C16': 'the same timing documents and history states; non-trivial = at least one story',
@@ -526,6 +530,93 @@ def project(pid, v):
                          'stories': [{k: s[k] for k in ('id', 'duration', 'offset', 'start', 'stop')} for s in w['stories']]}}
     return {'view': {'script': w['script'], 'body': w['body'],
                      'stories': [{'script': s['script'], 'body': s['body']} for s in w['stories']]}}
+
+
+def numbers_check(oc, seed=0):
+    """The model's number literals against the interpreter's: `pyFloatAccepts` vs `float()` raising, the value models
+    `pyFloat` / `pyInt` vs the values, on every string up to length 4 over the characters that matter, a list of
+    known corners and seeded longer strings; and, for every scalar value, whether int()/float() strip it."""
+    import itertools, random
+    from fractions import Fraction
+    from . import lean
+    alpha = ['0', '1', '.', 'e', '+', '-', '_', ' ', 'n', 'a', 'i', 'f']
+    strings = [''.join(t) for n in range(0, 5) for t in itertools.product(alpha, repeat=n)]
+    strings += ['nan', 'NaN', 'inf', '-inf', '+Infinity', 'infinity', 'INF', 'iNfInItY', 'infinit', 'infinity1', '1inf', 'nane', '-nan',
+                '1e400', '1e-400', '1e15', '-60', '9' * 40, '9' * 400, '1_000', '1__0', '_1', '1_', '1._5', '1_.5', '1.', '.5', '.',
+                ' 1 ', '1e', 'e5', '1e+5', '1E-5', '1e5.0', '0x10', '1.2.3', '+-1', '--1', '+ 1', '1 2', '1e1_0', '1_0.0_1e1_1',
+                '1\n', '\x0c1', '1\x1f', '\x1c1', '1\x85', '1\xa0', '\u20031', '-.5e-3', '+.e1', '1.e1', '0_0', '00', '0e0', '1_e1',
+                '1e_1', '1e+_1', '1e1_', '._1', '1.1_1', '1._', '12.25', '0.125', '33.333333', '0.1234567', '007', '\t4\n', '4294967296',
+                '1,5', '1 000', '١٢', '１２', '½', '1e٣']
+    rng = random.Random(seed * 7919 + 5)
+    wide = alpha + ['9', 'E', 'N', 'A', 'I', 'F', 'y', 't', 'x', '\t', '\n', '5']
+    strings += [''.join(rng.choice(wide) for _ in range(rng.randrange(5, 12))) for _ in range(4000)]
+    # well-formed literals with long digit runs, separators and exponents (random strings are almost never accepted)
+    def lit():
+        d = lambda: '_'.join(''.join(rng.choice('0123456789') for _ in range(rng.randrange(1, 5))) for _ in range(rng.randrange(1, 3)))
+        m = rng.choice([d(), d() + '.', '.' + d(), d() + '.' + d()])
+        e = rng.choice(['', '', 'e' + rng.choice(['', '+', '-']) + str(rng.randrange(0, 12)), 'E' + rng.choice(['1_0', '0_3', '2', '+1_1'])])
+        return rng.choice(['', '', ' ', '\n\t']) + rng.choice(['', '', '+', '-']) + m + e + rng.choice(['', '', ' ', '\r\n'])
+    strings += [lit() for _ in range(3000)]
+    res = lean.run_batch([{'op': 'numbers', 'strings': strings}])[0]['numbers']
+    bad = []
+    accepted = outside = 0
+    for s, r in zip(strings, res):
+        oc.evaluations += 1
+        try:
+            v = float(s)
+            ok = True
+        except ValueError:
+            v, ok = None, False
+        non_ascii = any(ord(c) > 127 and not c.isspace() for c in s)
+        if non_ascii:
+            outside += 1                      # non-ASCII decimal digits: not modelled (stated in the model)
+            continue
+        accepted += ok
+        if r['accepts'] != ok:
+            bad.append({'string': s, 'python_float_accepts': ok, 'model_accepts': r['accepts']})
+        if r['float'] is not None and r['float'] >= 10 ** 15:
+            outside += 1                      # beyond 10^9 s the value model (exact, unbounded) is not a model of a double: stated limit
+        elif r['float'] is not None:
+            n = r['float']
+            if not ok or v != v or v in (float('inf'), float('-inf')) or abs(Fraction(v) * 10 ** 6 - n) > max(Fraction(1, 1000), Fraction(n, 2 ** 50)):
+                bad.append({'string': s, 'python_float': repr(v), 'model_microseconds': n})
+        try:
+            iv = int(s)
+        except ValueError:
+            iv = None
+        if iv is not None and s.strip().startswith('-'):
+            outside += 1                      # a minus sign in int(): not modelled (stated in the model)
+        elif r['int'] != iv:
+            bad.append({'string': s, 'python_int': iv, 'model_int': r['int']})
+    model_sp = set(lean.run_batch([{'op': 'numspaces'}])[0]['spaces'])
+    py_sp = set()
+    for cp in range(0x110000):
+        if 0xD800 <= cp <= 0xDFFF:
+            continue
+        ch = chr(cp)
+        f = i = True
+        try:
+            float(ch + '1' + ch)
+        except ValueError:
+            f = False
+        try:
+            int(ch + '1' + ch)
+        except ValueError:
+            i = False
+        if f != i:
+            bad.append({'scalar': cp, 'float_strips': f, 'int_strips': i})
+        if f:
+            py_sp.add(cp)
+    # (a decimal digit of another script around '1' is accepted too: those are digits, not blanks)
+    py_sp = {cp for cp in py_sp if chr(cp).isspace()}
+    if model_sp != py_sp:
+        bad.append({'what': 'blanks stripped by int()/float()', 'only_python': sorted(py_sp - model_sp)[:20], 'only_model': sorted(model_sp - py_sp)[:20]})
+    oc.evaluations += 1
+    oc.extra['number_literals'] = {'strings': len(strings), 'accepted_by_float': accepted, 'outside_model': outside,
+                                   'exhaustive_up_to_length': 4, 'alphabet': ''.join(alpha), 'scalar_values_checked_for_stripping': 0x110000 - 0x800,
+                                   'stripped_by_float_and_int': len(py_sp)}
+    for b in bad[:20]:
+        oc.disagreements.append(dict(b, kind='numbers', what='number literal: the model and the interpreter read it differently'))
 
 
 def spaces_check(oc):
